@@ -193,4 +193,99 @@ def spiScale (lo hi thousand : α) (v : α) : α :=
   let t := if t < lo then lo else t     -- max(t, lo)
   if hi < t then hi else t              -- min(t, hi)
 
+/-- int16 cell of the SPI output: nodata, or the saturated, rounded index -/
+def spiCell (rnd : α → α) (lo hi thousand nodata : α) : Option α → α
+  | none => nodata
+  | some v => rnd (spiScale lo hi thousand v)
+
+/-- `x[groups == g]` -/
+def gatherGrp {β : Type} (xx : List β) (groups : List Nat) (g : Nat) : List β :=
+  ((xx.zip groups).filter fun (_, k) => k = g).map (·.1)
+
+/-- `yy[groups == g] = vals` (in order); cells of other groups keep their content -/
+def scatterGrp {β : Type} (g : Nat) : List Nat → List β → List (Option β) → List (Option β)
+  | k :: ks, vals, o :: os =>
+    if k = g then
+      match vals with
+      | v :: vs => some v :: scatterGrp g ks vs os
+      | [] => o :: scatterGrp g ks [] os
+    else o :: scatterGrp g ks vals os
+  | _, _, os => os
+
+/-- `gammastd_grp`: outer `none` = never written (label outside 0..num_groups-1) -/
+def gammastdGrp (F : GamFns α) (xx : List α) (groups : List Nat) (numGroups : Nat) (nodata : α)
+    (cal : List (Nat × Nat)) : List (Option (Option α)) :=
+  (List.range numGroups).foldl (fun out g =>
+    let c := cal.getD g (0, 0)
+    scatterGrp g groups (gammastd F (gatherGrp xx groups g) nodata c.1 c.2) out)
+    (xx.map fun _ => none)
+
+/-! ### Brent's root finder (`brentq`), parametric in the function -/
+
+structure BState (α : Type) where
+  xpre : α
+  xcur : α
+  xblk : α
+  fpre : α
+  fcur : α
+  fblk : α
+  spre : α
+  scur : α
+
+def minv (a b : α) : α := if b < a then b else a
+
+/-- the trial step: secant (`xpre == xblk`) or inverse quadratic extrapolation -/
+def brentTry (s : BState α) : α :=
+  if eqv s.xpre s.xblk then -s.fcur * (s.xcur - s.xpre) / (s.fcur - s.fpre)
+  else
+    let dpre := (s.fpre - s.fcur) / (s.xpre - s.xcur)
+    let dblk := (s.fblk - s.fcur) / (s.xblk - s.xcur)
+    let stry := -s.fcur * (s.fblk * dblk - s.fpre * dpre) / (dblk * dpre * (s.fblk - s.fpre))
+    stry
+
+/-- choice of (spre, scur): short interpolation step or bisection -/
+def brentChoose (s : BState α) (delta sbis : α) : BState α :=
+  if delta < absv s.spre ∧ absv s.fcur < absv s.fpre then
+    if nat 2 * absv (brentTry s) < minv (absv s.spre) (nat 3 * absv sbis - delta) then
+      { s with spre := s.scur, scur := brentTry s }
+    else { s with spre := sbis, scur := sbis }
+  else { s with spre := sbis, scur := sbis }
+
+/-- re-bracketing at the top of the loop body -/
+def brentBracket (s : BState α) : BState α :=
+  let s1 : BState α := if s.fpre * s.fcur < nat 0 then
+      { s with xblk := s.xpre, fblk := s.fpre, spre := s.xcur - s.xpre, scur := s.xcur - s.xpre }
+    else s
+  if absv s1.fblk < absv s1.fcur then
+    { s1 with xpre := s1.xcur, xcur := s1.xblk, xblk := s1.xcur, fpre := s1.fcur, fcur := s1.fblk, fblk := s1.fcur }
+  else s1
+
+/-- one pass of the loop body: `.inl x` = return x, `.inr s` = next state -/
+def brentStep (f : α → α) (xtol rtol : α) (s0 : BState α) : Sum α (BState α) :=
+  let s := brentBracket s0
+  let delta := (xtol + rtol * absv s.xcur) / nat 2
+  let sbis := (s.xblk - s.xcur) / nat 2
+  if eqv s.fcur (nat 0) ∨ absv sbis < delta then .inl s.xcur
+  else
+    let t := brentChoose s delta sbis
+    let xnew := if delta < absv t.scur then t.xcur + t.scur
+                else t.xcur + (if nat 0 < sbis then delta else -delta)
+    .inr { t with xpre := t.xcur, fpre := t.fcur, xcur := xnew, fcur := f xnew }
+
+def brentLoop (f : α → α) (xtol rtol : α) : Nat → BState α → α
+  | 0, s => s.xcur
+  | k + 1, s =>
+    match brentStep f xtol rtol s with
+    | .inl x => x
+    | .inr s' => brentLoop f xtol rtol k s'
+
+/-- `brentq(xa, xb, s)` with `f a = log a - digamma a - s`; `maxiter` = 100 in the source -/
+def brentq (f : α → α) (xtol rtol : α) (maxiter : Nat) (xa xb : α) : α :=
+  let fpre := f xa
+  let fcur := f xb
+  if nat 0 < fpre * fcur then nat 0
+  else if eqv fpre (nat 0) then xa
+  else if eqv fcur (nat 0) then xb
+  else brentLoop f xtol rtol maxiter ⟨xa, xb, nat 0, fpre, fcur, nat 0, nat 0, nat 0⟩
+
 end Hdc
